@@ -164,9 +164,52 @@ def main():
     takers = set()
     for m in re.finditer(r"\bfn\s+(\w+)\s*\(", src):
         b = fn_body(src[m.start():], m.group(1))
-        if b is not None and re.search(r"self\s*\.\s*next_seq\s*\.\s*lock\(\)", b):
+        if b is not None and re.search(r"self\s*\.\s*next_seq\s*\.\s*(try_)?lock\(\)", b):
             takers.add(m.group(1))
     extra = sorted(takers - set(LOCKED) - {"create_continuity", "branch", "handoff", "verif_seq_free"})
+
+    # ---- TaskEmitter::emit (crates/ripd/src/tasks/mod.rs): extent of the seq guard
+    tpath = os.path.join(a.repo, "crates", "ripd", "src", "tasks", "mod.rs")
+    tsrc = strip(open(tpath).read()) if os.path.exists(tpath) else ""
+    task_steps = []
+    mi = re.search(r"impl\s+TaskEmitter\s*\{", tsrc)
+    ebody = fn_body(tsrc[mi.start():], "emit") if mi else None
+    if ebody is not None:
+        tm = [("TLOCK", r"let\s+mut\s+seq\s*=\s*self\s*\.\s*seq\s*\.\s*lock\(\)\s*\.\s*await"),
+              ("TANYLOCK", r"self\s*\.\s*seq\s*\.\s*(try_)?lock\(\)"),
+              ("TCHOOSE", r"\*\s*seq\s*\+=\s*1"),
+              ("TBCAST", r"self\s*\.\s*sender\s*\.\s*send\("),
+              ("TAPPEND", r"self\s*\.\s*event_log\s*\.\s*append\("),
+              ("TDROP", r"drop\(\s*seq\s*\)")]
+        found = []
+        for name, pat in tm:
+            for m in re.finditer(pat, ebody):
+                found.append((m.start(), name, m.end()))
+        found.sort()
+        spans = [(p0, e0) for p0, n0, e0 in found if n0 == "TLOCK"]
+        bound = False
+        for p0, n0, e0 in found:
+            if n0 == "TANYLOCK" and any(a0 <= p0 < b0 for a0, b0 in spans):
+                continue
+            if n0 == "TLOCK":
+                # the guard must be bound at the top level of the function body (not inside a block
+                # that ends before the append)
+                depth = ebody[:p0].count("{") - ebody[:p0].count("}")
+                task_steps.append("MTaskLock" if depth == 0 else "MUnknown")
+                bound = depth == 0
+            elif n0 == "TANYLOCK":
+                task_steps.append("MUnknown")
+            elif n0 == "TCHOOSE":
+                task_steps.append("MTaskChoose")
+            elif n0 == "TBCAST":
+                task_steps.append("MBcast")
+            elif n0 == "TAPPEND":
+                task_steps.append("MTaskAppend EToolTaskOutputDelta")
+            elif n0 == "TDROP":
+                task_steps.append("MTaskUnlock")
+                bound = False
+        if bound:
+            task_steps.append("MTaskUnlock")
 
     def lst(xs):
         return "[" + "; ".join(xs) + "]"
@@ -185,12 +228,14 @@ def main():
     out.append(f"Definition gen_branch : list mstep := {lst(branch)}.")
     out.append(f"Definition gen_handoff : list mstep := {lst(handoff)}.")
     out.append(f"Definition gen_other_seq_mutex_users : nat := {len(extra)}%nat.  (* {' '.join(extra)} *)")
+    out.append(f"Definition gen_task_emit : list mstep := {lst(task_steps)}.")
     out.append("""
 Definition mcode (m : mstep) : N :=
   match m with
   | MLock => 1 | MChoose => 2 | MLogAppend t _ => 100 + etype_code t | MSidecar => 4 | MBcast => 5
   | MAdvance => 6 | MUnlock => 7 | MAlloc => 8 | MLogAppendFixed n t _ => 1000 + 100 * n + etype_code t
   | MIndexInsert => 9 | MSetNext n => 20 + n | MTarget _ => 10 | MPickNewest => 11 | MRead => 12
+  | MTaskLock => 13 | MTaskChoose => 14 | MTaskAppend _ => 15 | MTaskUnlock => 16
   | _ => 0
   end.
 Definition same_shape (a b : list mstep) : bool := lN_eqb (map mcode a) (map mcode b).
@@ -201,7 +246,8 @@ Definition gen_append_skeletons_ok_b : bool :=
   && same_shape gen_create (create_prog [])
   && same_shape gen_branch (lineage_prog EContinuityBranched [] [])
   && same_shape gen_handoff (lineage_prog EContinuityHandoffCreated [] [])
-  && Nat.eqb gen_other_seq_mutex_users 0.
+  && Nat.eqb gen_other_seq_mutex_users 0
+  && same_shape gen_task_emit (task_emit EToolTaskOutputDelta).
 
 Lemma gen_append_skeletons_ok : gen_append_skeletons_ok_b = true.
 Proof. vm_compute. reflexivity. Qed.""")
@@ -213,6 +259,7 @@ Proof. vm_compute. reflexivity. Qed.""")
     print("branch            :", " ".join(branch))
     print("handoff           :", " ".join(handoff))
     print("other functions taking the seq mutex:", extra)
+    print("TaskEmitter::emit :", " ".join(task_steps))
     return 0
 
 
